@@ -2,6 +2,7 @@
 //! line per case ("<channel> key=value ...") for the model driver.
 mod art;
 mod flags;
+mod pmf;
 mod probe;
 mod util;
 
@@ -21,6 +22,12 @@ fn main() {
         eprintln!("usage: harness <channel> [--seed S] [--count N] [--maxn N] [--mode M] [--out FILE]");
         std::process::exit(2);
     }
+    if args[1] == "pmfchild" {
+        // child mode of the pmf channel: one primitive at one call site, one output line
+        std::panic::set_hook(Box::new(|_| {}));
+        pmf::child(&args);
+        return;
+    }
     // silence the default panic message: panics are caught per case and reported
     std::panic::set_hook(Box::new(|_| {}));
     let seed: u64 = arg(&args, "--seed", "1").parse().unwrap();
@@ -36,6 +43,7 @@ fn main() {
     match args[1].as_str() {
         "art" => art::run(seed, count, maxn, &mode, &mut out),
         "flags" => flags::run(seed, count, &mut out),
+        "pmf" => pmf::run(seed, &mode, &mut out),
         "probe" => probe::run(&mode),
         other => {
             eprintln!("unknown channel {other}");
